@@ -262,6 +262,12 @@ class FileDomain(NormDomain):
         self.tiny = set()         # atoms standing for a machine epsilon
         self._n = 0
 
+    def param(self, fi, name, default):
+        # a routine is run as it would be called: a parameter that is not given takes its default
+        if default is not None:
+            return default
+        return NormDomain.param(self, fi, name, default)
+
     # ------------------------------------------------------------------ helpers
     def fresh(self, prefix):
         self._n += 1
@@ -972,9 +978,12 @@ class FileDomain(NormDomain):
                     return Unknown('fft2 size that is not followed')
                 if a.ndim < 2 or 'axes' in kwargs or len(args) > 2:
                     return Unknown('fft2 axes')
+            norm = kwargs.get('norm', Const(None))
+            if not (isinstance(norm, Const) and norm.v in (None, 'backward', 'ortho', 'forward')) or (set(kwargs) - {'n', 'axis', 's', 'norm', 'axes'}):
+                return Unknown('fft options that are not followed')
             cur = a
             for ax, n in zip(axes, sizes):
-                cur = self.dft_axis(cur, ax % cur.ndim, n, inverse, node)
+                cur = self.dft_axis(cur, ax % cur.ndim, n, inverse, node, norm.v or 'backward')
                 if not isinstance(cur, FArr):
                     return cur
             return cur
@@ -1002,6 +1011,85 @@ class FileDomain(NormDomain):
             if dotted == 'numpy.outer':
                 a, b = a.view((a.size,)), b.view((b.size,))
             return FArr.of(a.shape + b.shape, [self.cell_binop(op, x, y, node) for x in a.values() for y in b.values()])
+        if dotted in ('scipy.ndimage.convolve', 'scipy.ndimage.correlate') and len(args) >= 2 and isinstance(args[0], FArr) and args[0].ndim == 2:
+            ker = args[1] if isinstance(args[1], FArr) else (self.from_nested(args[1], node) if isinstance(args[1], Tup) else None)
+            mode = kwargs.get('mode', Const('reflect'))
+            if isinstance(ker, FArr) and ker.ndim == 2 and isinstance(mode, Const) and mode.v in ('reflect', 'constant', 'nearest', 'mirror', 'wrap') \
+                    and not (set(kwargs) - {'mode', 'cval'}) and len(args) == 2:
+                img = args[0]
+                H, W = img.shape
+                kh, kw = ker.shape
+                ch, cw = kh // 2, kw // 2
+                cval = kwargs.get('cval', Const(0))
+
+                def at(i, n):
+                    if 0 <= i < n:
+                        return i
+                    if mode.v == 'constant':
+                        return None
+                    if mode.v == 'nearest':
+                        return min(max(i, 0), n - 1)
+                    if mode.v == 'wrap':
+                        return i % n
+                    if n == 1:
+                        return 0
+                    if mode.v == 'reflect':         # d c b a | a b c d | d c b a
+                        p_ = i % (2 * n)
+                        return p_ if p_ < n else 2 * n - 1 - p_
+                    p_ = i % (2 * n - 2)            # mirror: d c b | a b c d | c b a
+                    return p_ if p_ < n else 2 * n - 2 - p_
+                out = []
+                for i in range(H):
+                    for j in range(W):
+                        acc = Const(0)
+                        for p_ in range(kh):
+                            for q_ in range(kw):
+                                kv = ker.boxes[p_ * kw + q_].v
+                                if isinstance(kv, Const) and kv.v == 0:
+                                    continue
+                                # correlate: in[i + p - c]; convolve: the kernel flipped
+                                di, dj = (p_ - ch, q_ - cw) if dotted.endswith('correlate') else (ch - p_ - (1 - kh % 2), cw - q_ - (1 - kw % 2))
+                                ii, jj = at(i + di, H), at(j + dj, W)
+                                x = cval if (ii is None or jj is None) else img.boxes[ii * W + jj].v
+                                acc = self.cell_binop(ast.Add(), acc, self.cell_binop(ast.Mult(), kv, x, node), node)
+                        out.append(acc)
+                return FArr.of((H, W), out)
+            return Unknown('ndimage.%s with arguments that are not followed' % dotted.rsplit('.', 1)[-1])
+        if dotted == 'numpy.einsum' and len(args) >= 2 and isinstance(args[0], Const) and isinstance(args[0].v, str) and all(isinstance(a, FArr) for a in args[1:]) \
+                and not (set(kwargs) - {'optimize'}):
+            spec = args[0].v.replace(' ', '')
+            ops = list(args[1:])
+            if '...' not in spec:
+                if '->' in spec:
+                    ins, out = spec.split('->')
+                else:
+                    ins = spec
+                    letters = sorted(set(c for c in ins if c.isalpha()))
+                    out = ''.join(c for c in letters if ins.count(c) == 1)
+                ins = ins.split(',')
+                if len(ins) == len(ops) and all(len(s_) == o.ndim for s_, o in zip(ins, ops)):
+                    dims = {}
+                    okd = True
+                    for s_, o in zip(ins, ops):
+                        for c, d in zip(s_, o.shape):
+                            if dims.setdefault(c, d) != d:
+                                okd = False
+                    if okd and all(c in dims for c in out):
+                        summed = [c for c in dims if c not in out]
+                        oshape = tuple(dims[c] for c in out)
+                        data = []
+                        for oidx in itertools.product(*[range(d) for d in oshape]):
+                            env = dict(zip(out, oidx))
+                            acc = Const(0)
+                            for sidx in itertools.product(*[range(dims[c]) for c in summed]):
+                                env.update(zip(summed, sidx))
+                                term = Const(1)
+                                for s_, o in zip(ins, ops):
+                                    term = self.cell_binop(ast.Mult(), term, o.boxes[o.flat_index([env[c] for c in s_])].v, node)
+                                acc = self.cell_binop(ast.Add(), acc, term, node)
+                            data.append(acc)
+                        return FArr.of(oshape, data) if oshape else data[0]
+            return Unknown('einsum with a subscript string that is not followed')
         if dotted == 'struct.Struct' and args and isinstance(args[0], Const) and isinstance(args[0].v, (str, bytes)):
             return StructV(args[0].v if isinstance(args[0].v, str) else args[0].v.decode())
         a0 = args[0] if args else None
@@ -1176,6 +1264,18 @@ class FileDomain(NormDomain):
             self.warned.append(node)
             self.interp.emit('warn', node=node)
             return Const(None)
+        if dotted in ('numpy.exp', 'cmath.exp') and len(args) == 1 and isinstance(a0, Sym):
+            # exp(i pi q) for q a multiple of 1/2: 1, i, -1, -i
+            q = -(a0.r * self.R.I) / Rat(self.R.atom('pi'))         # a / (i pi) = -a i / pi
+            if q.num.is_const() and q.den.is_const():
+                c = q.num.const_value() / q.den.const_value()
+                if getattr(c, 'imag', 0) == 0:
+                    c = Fraction(c.real) if isinstance(c, complex) else c
+                    if c.denominator in (1, 2):
+                        k = int(c * 2) % 4
+                        return Const((1, 1j, -1, -1j)[k])
+                    if c.denominator in (3, 6):
+                        return self.unit_root(int(c * 6) % 12, 12)
         if dotted in ('numpy.cos', 'numpy.sin', 'math.cos', 'math.sin') and len(args) == 1 and isinstance(a0, Sym):
             # multiples of pi/2: exact values
             q = a0.r / (Rat(self.R.atom('pi')) / 2)
@@ -1206,14 +1306,28 @@ class FileDomain(NormDomain):
             return [x for x in args if isinstance(x, (Junk, Unknown))][0]
         return NormDomain.call_ext(self, dotted, args, kwargs, node)
 
-    def dft_axis(self, a, ax, n, inverse, node):
+    def unit_root(self, k, n):
+        """exp(2 pi i k / n) for n = 12 (multiples of 30 degrees), exactly: cos and sin are 0, +-1/2, +-sqrt(3)/2, +-1"""
+        assert n == 12
+        half = Rat(self.R.const(1)) / 2
+        s3 = Rat(self.R.sqrt(Rat(self.R.const(3)))) / 2
+        zero, one = Rat(self.R.const(0)), Rat(self.R.const(1))
+        cos = [one, s3, half, zero, -half, -s3, -one, -s3, -half, zero, half, s3]
+        sin = cos[9:] + cos[:9]           # sin(x) = cos(x - 90 degrees)
+        return self.lift(cos[k % 12] + self.R.I * sin[k % 12])
+
+    def dft_axis(self, a, ax, n, inverse, node, norm='backward'):
         """exact DFT along one axis (zero padded / cut to n) for lengths 1, 2 and 4, whose roots of unity are 1, -1, i, -i"""
         N = a.shape[ax] if n is None else n
-        if N not in (1, 2, 4):
-            return Unknown('a DFT of length %d (only lengths 1, 2, 4 are evaluated exactly)' % N)
-        roots = {1: [1], 2: [1, -1], 4: [1, -1j, -1, 1j]}[N]
-        if inverse:
-            roots = [complex(r).conjugate() if isinstance(r, complex) else r for r in roots]
+        if N not in (1, 2, 3, 4, 6):
+            return Unknown('a DFT of length %d (only lengths 1, 2, 3, 4, 6 are evaluated exactly)' % N)
+        if N in (3, 6):
+            roots = [self.unit_root((-1 if not inverse else 1) * j * (12 // N), 12) for j in range(N)]
+        else:
+            roots = {1: [1], 2: [1, -1], 4: [1, -1j, -1, 1j]}[N]
+            if inverse:
+                roots = [complex(r).conjugate() if isinstance(r, complex) else r for r in roots]
+            roots = [Const(r) for r in roots]
         moved = a.axis_perm([k for k in range(a.ndim) if k != ax] + [ax])
         lead = moved.shape[:-1]
         L = moved.shape[-1]
@@ -1224,10 +1338,16 @@ class FileDomain(NormDomain):
                 acc = Const(0)
                 for j, x in enumerate(xs):
                     w = roots[(k * j) % N]
-                    term = x if w == 1 else self.cell_binop(ast.Mult(), x, Const(w), node)
+                    term = x if (isinstance(w, Const) and w.v == 1) else self.cell_binop(ast.Mult(), x, w, node)
                     acc = self.cell_binop(ast.Add(), acc, term, node)
-                if inverse and N > 1:
+                # backward: 1 forward, 1/N inverse; ortho: 1/sqrt(N) both ways; forward: 1/N forward, 1 inverse
+                if N > 1 and ((norm == 'backward' and inverse) or (norm == 'forward' and not inverse)):
                     acc = self.cell_binop(ast.Div(), acc, Const(N), node)
+                elif N in (3, 6) and norm == 'ortho':
+                    acc = self.cell_binop(ast.Mult(), acc, self.lift(Rat(self.R.sqrt(Rat(self.R.const(1)) / N))), node)
+                elif N > 1 and norm == 'ortho':
+                    acc = self.cell_binop(ast.Div(), acc, Const(2), node) if N == 4 else \
+                        self.cell_binop(ast.Mult(), acc, self.lift(Rat(self.R.sqrt(Rat(self.R.const(1)) / 2))), node)        # sqrt(1/2), the form NORM keeps
                 out.append(acc)
         res = FArr.of(lead + (N,), out, DType('c', 16))
         back = list(range(a.ndim - 1))
@@ -1536,6 +1656,14 @@ class FileDomain(NormDomain):
         return self.interp.call_value(ExtRef('numpy.' + f), list(cells), {}, node, None)
 
     def reduce_axis(self, f, a, ax, node):
+        if isinstance(ax, Tup) and ax.items and all(self._int(x) is not None for x in ax.items):
+            # several axes: one after the other, highest first (mean over equal-sized groups is the mean of the means)
+            cur = a
+            for k in sorted({self._int(x) % a.ndim for x in ax.items}, reverse=True):
+                cur = self.reduce_axis(f, cur, Const(k), node)
+                if not isinstance(cur, FArr):
+                    return cur
+            return cur
         k = self._int(ax)
         if k is None:
             return Unknown('reduction axis')
